@@ -338,3 +338,7 @@ func showVal(v Value) string {
 	}
 	return fmt.Sprintf("%T", v)
 }
+
+// hangPanic: a loop exceeded its unwinding bound in a harness that declared every loop
+// bounded (termination is the property).
+type hangPanic struct{ where string }
